@@ -968,6 +968,124 @@ theorem C05_tile_statement_false : ¬ C05_tile_statement := fun h =>
 example : tileValidate { tileWitness with tile := 0 } = .error .badOption := by decide
 example : tileValidate { tileWitness with st := .lit 3 } = .error .stepTooLarge := by decide
 
+/-! ### the candidate repairs (`fixes/C05-*.patch`, flags of `Fixes`) -/
+
+/-- with all flags off the flagged functions are the pinned ones -/
+theorem chunkValidateF_pinned (t : ChunkTarget) : chunkValidateF {} t = chunkValidate t := by
+  unfold chunkValidateF chunkValidate
+  simp
+
+theorem fuseValidateF_pinned (t : FuseTarget) : fuseValidateF {} t = fuseValidate t := by
+  unfold fuseValidateF
+  split
+  · rename_i h
+    unfold fuseValidate
+    rw [if_pos h]
+  · simp
+
+theorem tileValidateF_pinned (t : TileTarget) : tileValidateF {} t = tileValidate t := by
+  unfold tileValidateF tileValidate
+  simp only [chunkValidateF_pinned]
+
+/-- a repaired `validate` accepts only what the pinned one accepts, and what the two new tests
+guarantee -/
+theorem chunkValidateF_ok {f : Fixes} {t : ChunkTarget} (h : chunkValidateF f t = .ok ()) :
+    chunkValidate t = .ok () ∧
+    (f.chunkDiv = true → ∃ s, t.l.st = .lit s ∧ s ∣ t.chunk) ∧
+    (f.chunkSelf = true → t.l.v ∉ eVars t.l.lo ++ eVars t.l.hi) := by
+  unfold chunkValidateF at h
+  split at h
+  · cases h
+  rename_i hc
+  split at h
+  · rename_i s hs
+    split at h
+    · cases h
+    rename_i h1
+    split at h
+    · cases h
+    rename_i h2
+    split at h
+    · cases h
+    rename_i h3
+    split at h
+    · cases h
+    rename_i h4
+    split at h
+    · cases h
+    rename_i h5
+    split at h
+    · cases h
+    rename_i h6
+    refine ⟨?_, ?_, ?_⟩
+    · unfold chunkValidate
+      rw [if_neg hc, hs]
+      dsimp only
+      rw [if_neg h1, if_neg h2, if_neg h3, if_neg h6]
+    · intro hf
+      refine ⟨s, hs, ?_⟩
+      simp only [hf, Bool.true_and, bne_iff_ne, ne_eq, Decidable.not_not] at h4
+      exact Int.natAbs_dvd_natAbs.mp (Nat.dvd_of_mod_eq_zero h4)
+    · intro hf
+      simpa [hf] using h5
+  · cases h
+
+theorem fuseValidateF_ok {f : Fixes} {t : FuseTarget} (h : fuseValidateF f t = .ok ()) :
+    fuseValidate t = .ok () ∧ (f.fuseOrder = true → t.reversed = false) := by
+  unfold fuseValidateF at h
+  split at h
+  · cases h
+  · split at h
+    · cases h
+    · rename_i h2
+      refine ⟨h, fun hf => ?_⟩
+      simpa [hf] using h2
+
+/-- **Chunking with the two repairs is sound for every positive step**: the hypotheses "the step
+divides the chunk size" and "the stop expression does not mention the loop variable" of
+`C05_chunk_sound_partial` are now guaranteed by `validate`.  Still missing: negative literal
+steps (the inner bound `out - (chunk + 1)` is pinned by an existing test) and the value of the
+loop variable after a zero-trip loop. -/
+theorem C05_chunk_sound_fixed_partial (f : Fixes) (hd : f.chunkDiv = true) (hself : f.chunkSelf = true)
+    (t : ChunkTarget) (hacc : chunkValidateF f t = .ok ()) (hfresh : ChunkFresh t)
+    (s : Int) (hst : t.l.st = .lit s) (hpos : 0 < s) (σ : Store) :
+    ∀ x i j, x ≠ t.out → x ≠ t.el →
+      ((x, i, j) = ((t.l.v, 0, 0) : Loc) → 0 < trip (eval t.l.lo σ) (eval t.l.hi σ) s) →
+      (exec (chunkApply t) σ) (x, i, j) = (exec t.l.stmt σ) (x, i, j) := by
+  obtain ⟨h0, h1, h2⟩ := chunkValidateF_ok hacc
+  obtain ⟨s', hs', hdiv⟩ := h1 hd
+  have hss : s' = s := by rw [hst] at hs'; cases hs'; rfl
+  subst hss
+  have hv := h2 hself
+  exact C05_chunk_sound_partial t h0 hfresh (fun hm => hv (List.mem_append_right _ hm)) s' hst hpos hdiv σ
+
+/-- non-vacuity, and the three chunk witnesses that the repairs turn into refusals -/
+example :
+    let t : ChunkTarget := ⟨⟨0, .var 4, .idx1 5 (.lit 2), .lit 2,
+      .store1 1 (.var 0) (.bin .add (.idx1 1 (.var 0)) (.var 0))⟩, 6, false, 2, 3⟩
+    chunkValidateF ⟨true, true, true⟩ t = .ok () ∧ ChunkFresh t := by decide
+example : chunkValidateF ⟨true, true, true⟩ chunkStepWitness = .error .stepNotDividing := by decide
+example : chunkValidateF ⟨true, true, true⟩ chunkStopWitness = .error .boundSelf := by decide
+example : chunkValidateF ⟨true, true, true⟩ chunkNegWitness = .ok () := by decide
+
+/-- **Fusion with the argument-order repair**: `apply(second, first)` is refused, so the
+hypothesis `reversed = false` of the fusion theorems is guaranteed by `validate` -/
+theorem C05_fuse_sound_fixed_partial (f : Fixes) (ho : f.fuseOrder = true) (t : FuseTarget)
+    (hacc : fuseValidateF f t = .ok ())
+    (hs : t.l1.v = t.l2.v ∧ t.l1.v ∉ wVars t.l2.body ∧ t.l1.v ∉ hdrVars t.l1 ∧
+      (∀ x ∈ wVars t.l1.body, x ∉ rVars t.l2.body ∧ x ∉ wVars t.l2.body) ∧
+      (∀ x ∈ wVars t.l2.body, x ∉ rVars t.l1.body ∧ x ∉ wVars t.l1.body)) (σ : Store) :
+    exec (fuseApply t) σ = exec t.original σ := by
+  obtain ⟨h0, h1⟩ := fuseValidateF_ok hacc
+  exact C05_fuse_sound_validated_partial t h0 ⟨h1 ho, hs⟩ σ
+
+example : fuseValidateF ⟨true, false, false⟩ fuseReversedWitness = .error .notAdjacent := by decide
+example :
+    let t : FuseTarget :=
+      ⟨⟨0, .var 4, .var 5, .lit 2, .store1 1 (.var 0) (.bin .add (.idx1 2 (.var 0)) (.var 0))⟩,
+       ⟨0, .var 4, .var 5, .lit 2, .store1 3 (.var 0) (.bin .mul (.idx1 2 (.var 0)) (.lit 2))⟩, true, false⟩
+    fuseValidateF ⟨true, false, false⟩ t = .ok () := by decide
+
 /-! ### FoldConditionalReturnExpressionsTrans -/
 
 /-- **Folding conditional returns is sound, unconditionally**: for every routine body (any
